@@ -245,7 +245,13 @@ def rule_emit_all(ctx: Ctx, out: Collector) -> None:
         env = FuncEnv.of(ctx.p, unit)
         loops = [x for x in env.own_nodes() if isinstance(x, ast.For)]
         for lp in loops:
+            # the look-up of the manager's hook: getattr(<manager>, <event>, ...) itself, or a helper called with the
+            # loop's manager variable, in a loop over the registered event managers
+            tnames = {x.id for x in ast.walk(lp.target) if isinstance(x, ast.Name)}
             getattrs = [x for x in ast.walk(lp) if isinstance(x, ast.Call) and isinstance(x.func, ast.Name) and x.func.id == 'getattr']
+            if not getattrs and 'event_manager' in unparse(lp.iter).lower():
+                getattrs = [a.value for a in ast.walk(lp) if isinstance(a, ast.Assign) and isinstance(a.value, ast.Call)
+                            and any(isinstance(x, ast.Name) and x.id in tnames for arg in a.value.args for x in ast.walk(arg))]
             if not getattrs:
                 continue
             n += 1
